@@ -84,3 +84,16 @@ package keystore
 //@   assert-at call safelyCheckPassword checks-the-passphrase-the-keystore-will-use: arg1 == privPassphrase
 //@ func (*KeystoreManagerForPoC).NewKeystore$1
 //@   assert-at call create stored-under-the-checked-passphrase: arg3 == privPassphrase
+
+// Unlock reports success only after the passphrase was verified for every keystore of the wallet (C03)
+//@ func (*KeystoreManagerForPoC).useKeystore
+//@   ensures verified-for-the-named-keystore: err == nil ==> has(kmc.managedKeystores, name) && pwChecked[kmc.managedKeystores[name]]
+//@   ensures earlier-verifications-kept: err == nil ==> (forall x int :: old(pwChecked[x]) ==> pwChecked[x])
+//@ func (*KeystoreManagerForPoC).Unlock
+//@   loop * invariant verified-so-far: forall k string :: visited(k) ==> pwChecked[kmc.managedKeystores[k]]
+//@   assert-at return success-only-after-verifying-every-keystore: result == nil ==> (forall k string :: has(kmc.managedKeystores, k) ==> pwChecked[kmc.managedKeystores[k]])
+
+// an export from a locked wallet leaves no derived master key behind
+//@ func (*AddrManager).exportKeystore
+//@   requires a.masterKeyPriv != nil && a.masterKeyPriv.Key != nil
+//@   assert-at call FetchBucket derived-master-key-wiped-before-the-store-is-read: keyZeroed(a.masterKeyPriv)
